@@ -91,6 +91,7 @@ def run_case(args):
             B = backend.SymBackend()
             B.observed = {}
             B.default_param = stage["param"]
+            B.kind_filter = getattr(mod, "KIND_FILTER", None)
             trace = not first["done"]
             first["done"] = True
             if trace:
